@@ -20,15 +20,16 @@ CLAIMED = {
         "for expressions of any depth over literals, scalar variables, unary minus, NOT and every binary operator, the emitted code is the "
         "postfix form, the VM's fetch loop runs it and leaves exactly the value (or raises exactly the error) that the reference semantics "
         "Spec/Sem.v computes for the same variable store, and nothing else changes (Props/C01.v, Proofs/ExprCompile.v); the ON dispatch arithmetic; "
-        "a simulation theorem for whole programs of any size made of LET, GOTO, ON..GOTO and END: codegen+link produce an explicit layout with every "
-        "branch slot patched to its target line's first instruction, and the VM's fetch loop on it follows Spec/Sem.run for any number of steps "
-        "(END with store V => VM stops with store V; error c => VM reports c) (Proofs/Flow.v..Flow4.v).",
+        "a simulation theorem for whole programs of any size made of LET, PRINT, GOTO, ON..GOTO and END: codegen+link produce an explicit layout with every "
+        "branch slot patched to its target line's first instruction, and the VM's fetch loop on it follows Spec/Sem.run for any number of steps: the texts "
+        "Sem prints are exactly the texts of the VM's PRINT events, in order; END with store V => VM stops with store V; error c => VM reports c "
+        "(Proofs/Flow.v..Flow4.v, LineLit.v).",
         "the whole interpreter model (lexer, parser, codegen, linker, VM) against the crate on generated programs of the well-defined "
         "fragment, and the crate's transcript against Spec/Sem.v (statement-by-statement, continuations and frames, no addresses), which "
         "produces the concrete failing program.",
         "GOSUB/FOR/WHILE/IF, TRON, arrays, functions and the line number attached to an error are NOT covered by the simulation theorem; "
         "for them the deciding work is the differential run against Spec/Sem.v. Sem shares value-level operations with the model.",
-        "Coq compiler-correctness theorems (expressions; simulation for the LET/GOTO/ON..GOTO/END fragment) + model/implementation/reference-semantics differential check"),
+        "Coq compiler-correctness theorems (expressions; simulation with printed output for the LET/PRINT/GOTO/ON..GOTO/END fragment) + model/implementation/reference-semantics differential check"),
     "C02": entry(
         "the precedence tables are the manual's 13 levels; result types of every operator (wider operand type for + - *, at least Single for /, "
         "Integer for \\ MOD and the logical operators, 0 or -1 for relational ones); the only error of + - * on numbers is OVERFLOW between two "
